@@ -21,11 +21,61 @@ describe(
 )
 
 
+def fast_appends(cx: Cx, ob: Ob, fn, s) -> None:
+    """A record put into the accumulator's ``records`` directly (a fast path around add_record) shares no name with
+    what is there: the tests in front of the append must ask the accumulator's tables about EVERY name of the record -
+    canonical prefix and each synonym in synonym_to_prefix / prefix_map, canonical URI prefix and each synonym in
+    reverse_prefix_map / the trie - and the shortcut is exact comparison, so it needs case_sensitive to be true."""
+    from ..rules import URI_SIDE, guard_atoms
+
+    for ev, ctx in s.walk():
+        if not (ev.kind == "expr" and op(ev.a) == "call" and callee_name(ev.a) == "append" and op(ev.a[1]) == "attr" and op(ev.a[1][1]) == "attr" and ev.a[1][1][2] == "records" and ev.a[2]):
+            continue
+        acc, rec = ev.a[1][1][1], ev.a[2][0]
+        prov = Prov(s)
+        covered = {"curie": set(), "uri": set()}
+        case_ok = False
+        for a, pol in guard_atoms(ctx.guards):
+            if a == ("param", "case_sensitive") and pol is True:
+                case_ok = True
+            tests = []
+            if pol is False and op(a) == "cmp" and a[1] == "in":
+                tests.append((a[2], a[3]))
+            if pol is False and op(a) == "call" and a[1] == ("builtin", "any") and len(a[2]) == 1 and op(a[2][0]) == "comp" and len(a[2][0][3]) == 1:
+                comp = a[2][0]
+                v_, src_, conds_ = comp[3][0]
+                if not conds_ and op(comp[2]) == "cmp" and comp[2][1] == "in" and comp[2][2] == v_:
+                    prov.add_binding(v_, src_)
+                    tests.append((v_, comp[2][3]))
+            for needle, table in tests:
+                if not (op(table) == "attr" and table[1] == acc):
+                    continue
+                side = "curie" if table[2] in ("synonym_to_prefix", "prefix_map") else "uri" if table[2] in ("reverse_prefix_map", "trie") else None
+                if side is None:
+                    continue
+                for r_, f_ in prov.fields(needle):
+                    if r_ == rec:
+                        covered[side].add(f_)
+        ob.site(f"{where(fn, ev.line)} {fn.qualname}", f"direct append to the accumulator's records; names asked about: {sorted(covered['curie'] | covered['uri'])}")
+        missing = sorted((set(CURIE_SIDE) - covered["curie"]) | (set(URI_SIDE) - covered["uri"]))
+        if missing:
+            ob.violate(
+                fn.qualname,
+                where(fn, ev.line),
+                f"{fn.name} appends a record to the accumulator without add_record after asking its tables only about {sorted(covered['curie'] | covered['uri'])}: a record tied to an earlier one through {missing} is appended as a record of its own instead of being merged - the shared name then has two owners and `_index` re-points it",
+                witness="c2 holds Record(prefix='chebiid', uri_prefix=EBI, uri_prefix_synonyms=[OBO]) and OBO is CHEBI's URI prefix in c1: chain([c1, c2]) keeps two records",
+                detail="fast-append-cover:" + "+".join(missing),
+            )
+        elif not case_ok:
+            ob.violate(fn.qualname, where(fn, ev.line), f"{fn.name} takes the exact-match shortcut around add_record also when case_sensitive is false: names equal up to case are not merged", detail="fast-append-case")
+
+
 @obligation("C09-D1", "shape of the fold: chain raises ValueError on an empty sequence, iterates converters and their records in the given order, and merges every record into one accumulator with its own case_sensitive and merge=True", floor=1)
 def d1(cx: Cx, ob: Ob) -> None:
     fn = cx.fn(f"{API}.chain", ob.id)
     s = cx.summary(fn, ob.id)
     convs = ("param", fn.params[0].name)
+    fast_appends(cx, ob, fn, s)
     # empty check
     ok = False
     for t, ctx in s.raises():
